@@ -1,6 +1,6 @@
 #!/bin/bash
-# usage: ./lb.sh Module   -- build one module, print only errors (with context) and the last line
+# usage: ./lb.sh Module [maxlines]  -- build one module under the checks' build lock, print errors only
 cd /verif/lean
-lake build "$1" 2>&1 > /tmp/lb.out
+flock /verif/lean/.lake/verif.lock lake build "$1" > /tmp/lb.out 2>&1
 grep -n -A30 "^error" /tmp/lb.out | head -${2:-120}
 tail -1 /tmp/lb.out
